@@ -463,6 +463,10 @@ static void worker(int w, int W, uint64_t start)
         g.root_kind = root; g.max_tokens = N_DOC_PLAIN; g.classes = cls2; g.nclasses = 4; g.names = names; g.nnames = 3; g.cb = on_doc;
         vf_gen_run(&g);
     }
+    /* 2b. sibling family: every pair and triple of small sibling subtrees (separators after every shape of sibling) */
+    memset(&g, 0, sizeof g);
+    g.cb = on_doc;
+    vf_sibling_run(&g, 2);
     /* 3. invalid inputs (C13: false for every capacity) */
     if (P_C13) {
         vf_trailing_inputs(on_trailing, NULL);      /* a complete root followed by 1 .. 262144 junk bytes */
